@@ -87,7 +87,7 @@ func c06SetEq(model []string, impl []lockuptypes.PeriodLock) string {
 
 func runC06(c *vk.Ctx) {
 	c.R.Rule = "cases = histories of LockTokens (new / add-to-existing), ExtendLockup, BeginUnlocking (full / partial → split), BeginUnlockingAll, SetRewardReceiverAddress, wrong-owner and invalid attempts, block-time jumps landing before / exactly at / after unlock end times, and matured-lock sweeps (real EndBlocker at heights divisible by 120; every 10th history runs 120 real consecutive blocks per sweep) by 4 owners over 3 denoms (one a strict prefix of another; in every fourth history a concentrated share denom, whose matured locks are burned by design; in every third a factory denom merely containing cl/pool) and 3 usual + up to 20 arbitrary durations; after every operation the module balance, LockedDenom(denom, d) for every used duration ±1ns and 0, 12 by-owner/denom/duration/time list queries and the module-wide by-denom keeper lists GetLocksDenom / GetLocksLongerThanDurationDenom / GetLocksPastTimeDenom (as sets), LockedByID and owner balance + locked conservation are compared with the lock book. distinct_nontrivial counts distinct (operation, outcome, #live locks bucket, #unlocking bucket, sweep mode) tuples."
-	nHist := c.N(60, 480)
+	nHist := c.N(120, 480)
 	opsPer := c.N(60, 250)
 	// "foo" is a strict prefix of "foox" (as gamm/pool/1 is of gamm/pool/10); "cl/pool/7" is a concentrated share
 	// denom, whose matured locks are burned by design instead of being returned
